@@ -1,7 +1,7 @@
 (* Props/C04.v — Supply conservation: value is created or destroyed only by protocol events.
    Only statements, each closed by [exact]; proofs live in Lemmas/. *)
 From Model Require Import Examples.
-From Lemmas Require Import DbLemmas SupplyLemmas RewardLemmas.
+From Lemmas Require Import DbLemmas SupplyLemmas RewardLemmas HistoryLemmas HistoryLemmas2 HistoryLemmas3.
 From Gen Require Import Consts.
 Open Scope Z_scope.
 
@@ -49,6 +49,19 @@ Print Assumptions C04_burns_exact.
 
 (* non-vacuity: in the example chain 100 pFCT are created by the burn, 20 pFCT destroyed and 80 pUSD
    created by the conversion, 5 PEG by the miner reward; the transfer changes no supply *)
+(* Chain level: after EVERY chain, every balance cell outside the three special addresses is exactly the sum of
+   what the recorded, executed history rows stand for (transfers move, conversions debit the input and credit the
+   converted amount, coinbase rows are the rewards / developer / staking payouts, burn rows the burnt FCT): no
+   value exists that a recorded protocol event did not create, and none disappeared without one.  Hypotheses as
+   for C17_history_replays_every_chain (no conversion into PEG in the chain; distinct batch-row hashes). *)
+Theorem C04_every_cell_is_accounted_for : forall c bs s m,
+  forallb block_okb bs = true ->
+  replay c genesis empty_cache bs = Done (s, m) ->
+  NoDup (map hb_hash (hist s)) ->
+  forall a t, special_addr a = false -> get_bal (bal s) a t = hist_sum c s a t.
+Proof. exact replay_accounts. Qed.
+Print Assumptions C04_every_cell_is_accounted_for.
+
 Example C04_example :
   exists s m, replay ex_cfg genesis empty_cache ex_chain = Done (s, m) /\
               supply s PTickerFCT = 80 /\ supply s PTickerUSD = 80 /\ supply s PTickerPEG = 5.
